@@ -58,7 +58,7 @@ pub fn run(args: &Args) -> Report {
             // one recoverable fault at a known token
             let params: Vec<usize> = (3..toks.len()).filter(|&i| toks[i].role == Role::Param).collect();
             let ends: Vec<usize> = (0..toks.len()).filter(|&i| toks[i].role == Role::End).collect();
-            let kind = d % 7;
+            let kind = d % 9;
             let mut t2 = toks.clone();
             let mut expect: Option<(&'static str, usize)> = None;
             let fam: &'static str;
@@ -102,6 +102,46 @@ pub fn run(args: &Args) -> Report {
                     t2.drain(0..3);
                     expect = None;
                 }
+                7 => {
+                    // PROJECT without any MODULE: reported (recoverable) at the token that ends the search, the /end of PROJECT
+                    fam = "fault:missing-module";
+                    let mut depth_mod: Option<usize> = None;
+                    let mut keep: Vec<GTok> = vec![];
+                    let mut i = 0;
+                    while i < toks.len() {
+                        if depth_mod.is_none() && toks[i].role == Role::Begin && toks.get(i + 1).map_or(false, |x| x.text == "MODULE") {
+                            depth_mod = Some(toks[i].depth);
+                        }
+                        if let Some(dm) = depth_mod {
+                            if toks[i].role == Role::End && toks[i].depth == dm && toks.get(i + 1).map_or(false, |x| x.text == "MODULE") {
+                                depth_mod = None;
+                                i += 2;
+                                continue;
+                            }
+                            i += 1;
+                            continue;
+                        }
+                        keep.push(toks[i].clone());
+                        i += 1;
+                    }
+                    t2 = keep;
+                    if let Some(e) = (0..t2.len()).rev().find(|&i| t2[i].role == Role::End && t2.get(i + 1).map_or(false, |x| x.text == "PROJECT")) {
+                        if !t2.iter().any(|x| x.text == "MODULE") {
+                            expect = Some(("InvalidMultiplicityNotPresent", e));
+                        }
+                    }
+                }
+                8 => {
+                    // data behind the end of the file's content: reported at the first additional token
+                    fam = "fault:additional-tokens";
+                    let extra = ["\"trailing\"", "42", "0x1F", "extra_ident"][rng.below(4)];
+                    let idx = t2.len();
+                    t2.push(GTok { text: extra.to_string(), role: Role::Param, depth: 0, elem: String::new() });
+                    if rng.chance(1, 2) {
+                        t2.push(GTok { text: "7".to_string(), role: Role::Param, depth: 0, elem: String::new() });
+                    }
+                    expect = Some(("AdditionalTokensError", idx));
+                }
                 5 => {
                     fam = "hard:deleted-parameter";
                     if let Some(&i) = params.get(rng.below(params.len().max(1))) {
@@ -123,6 +163,29 @@ pub fn run(args: &Args) -> Report {
             let ftext = render(&t2, &mut Rng(seed), layout, false);
             let exp = expect.map(|(k, idx)| (k, line_of_token(&t2, idx, &ftext)));
             cases.push(Case { text: ftext.clone(), family: fam, expect: exp });
+            // documents with an A2ML definition and IF_DATA: valid, and with a bare word where the definition has a string
+            // (non-strict reading accepts it with a warning; strict reading falls back to uninterpreted content)
+            if d % 6 == 1 {
+                let stoks = gen_document(&g, &mut rng, GenOpts { specials: true, opt_prob: 35, ..GenOpts::default() });
+                let sseed = rng.next();
+                cases.push(Case { text: render(&stoks, &mut Rng(sseed), layout, false), family: "valid-ifdata", expect: None });
+                let mut inside = false;
+                let mut strings: Vec<usize> = vec![];
+                for i in 1..stoks.len() {
+                    if stoks[i].text == "IF_DATA" && stoks[i - 1].role == Role::Begin {
+                        inside = true;
+                    } else if stoks[i].text == "IF_DATA" && stoks[i - 1].role == Role::End {
+                        inside = false;
+                    } else if inside && stoks[i].text.starts_with('"') {
+                        strings.push(i);
+                    }
+                }
+                if !strings.is_empty() {
+                    let mut s2 = stoks.clone();
+                    s2[strings[rng.below(strings.len())]].text = "bare_word".to_string();
+                    cases.push(Case { text: render(&s2, &mut Rng(sseed), layout, false), family: "ifdata:ident-for-string", expect: None });
+                }
+            }
             if d % 4 == 0 {
                 for m in crate::soup::token_mutations(&text, &mut rng, 3) {
                     cases.push(Case { text: m, family: "mutation", expect: None });
@@ -146,6 +209,19 @@ pub fn run(args: &Args) -> Report {
             continue;
         }
         match (&s, &n) {
+            (Loaded::Ok(ms, ls), Loaded::Ok(mn, ln)) if text.contains("IF_DATA") => {
+                // with IF_DATA only the first sentence of the property applies: a problem inside IF_DATA makes strict
+                // loading fall back to uninterpreted content instead of failing
+                rep.bump("outcome:both-ok-ifdata");
+                if log_text(ln).is_empty() {
+                    if ms != mn {
+                        rep.fail("models-differ", input.clone(), "non-strict loading succeeds without warnings, but strict loading yields a different model".into());
+                    }
+                    if !log_text(ls).is_empty() {
+                        rep.fail("logs-differ", input.clone(), format!("non-strict loading succeeds without warnings, strict log is [{}]", log_text(ls)));
+                    }
+                }
+            }
             (Loaded::Ok(ms, ls), Loaded::Ok(mn, ln)) => {
                 rep.bump("outcome:both-ok");
                 if ms != mn {
@@ -167,7 +243,9 @@ pub fn run(args: &Args) -> Report {
                 rep.bump("outcome:strict-err-nonstrict-ok");
                 let lt = log_text(ln);
                 let nondep: Vec<&str> = lt.split(',').filter(|x| !x.is_empty() && !is_deprecation(x)).collect();
-                if nondep.is_empty() {
+                if lt.is_empty() {
+                    rep.fail("strict-too-strict", input.clone(), format!("strict loading fails ({es}) although non-strict loading succeeds without warnings"));
+                } else if nondep.is_empty() && !text.contains("IF_DATA") {
                     rep.fail("strict-too-strict", input.clone(), format!("strict loading fails ({es}) although non-strict loading reports nothing but deprecation notices [{lt}]"));
                 }
             }
